@@ -91,7 +91,9 @@ def runSig (b : Block) : Res :=
   let impl := ((field b "impl").getD []).headD "?"
   if (field b "nonfunc").isSome then
     -- a non-function value must be rejected with an error, not a panic
-    let p := if impl = "err" then none else some s!"nonfunc_{impl}"
+    let lst := ((field b "list").getD []).headD "err"
+    let p := if impl ≠ "err" then some s!"nonfunc_{impl}"
+      else if lst ≠ "err" then some s!"NewFuncList_accepts_a_list_with_a_non-function_{lst}" else none
     { conform := if impl = "err" then none else some s!"nonfunc_model=err_impl={impl}", prop := p,
       props := [("C06", if impl = "panic" then "FAIL:NewFunc_panics_on_non_function" else "ok")],
       stats := ["class=nonfunc"] }
@@ -131,7 +133,10 @@ def runSig (b : Block) : Res :=
       else if iv ≠ si then some s!"inputs={showLabels iv}_expected={showLabels si}"
       else if ov ≠ so then some s!"outputs={showLabels ov}_expected={showLabels so}"
       else none
-    | _, _ => if impl = "err" then none else some s!"unsupported_signature_not_rejected_{impl}"
+    | _, _ => if impl ≠ "err" then some s!"unsupported_signature_not_rejected_{impl}"
+              else if ((field b "list").getD []).headD "err" ≠ "err" then
+                some s!"NewFuncList_accepts_a_list_with_an_unsupported_signature_{((field b "list").getD []).headD "?"}"
+              else none
   -- C15: the rendered signature of a positional input set is the parameter type list
   let p15 : String :=
     if impl ≠ "ok" then "na"
@@ -362,7 +367,9 @@ def runResult (b : Block) : Res :=
   let p15 := if fr = "skip" ∨ fr = "intact" then "ok" else s!"FAIL:FromResult_on_the_functions_own_output_set_{fr}"
   -- … which is also C17's concern: afterwards the i-th output is no longer the function's i-th returned value
   let p := p.or (if fr = "skip" ∨ fr = "intact" ∨ fr = "err" then none else some s!"result_changed_by_loading_it_into_the_functions_output_set_{fr}")
-  { conform := c, prop := p, props := [("C15", p15)],
+  -- C04: an error returned by the target itself is what the result's error accessor reports
+  let p04 := if !iexec ∨ ierr = showE wantErr then "ok" else s!"FAIL:target_returned_error_{showE wantErr}_but_Err()_is_{ierr}"
+  { conform := c, prop := p, props := [("C15", p15), ("C04", p04)],
     stats := [s!"size={rets.length}", s!"class={if finalErr then "finalerr" else "noerr"}"] }
 
 end ArgMapper.Driver
